@@ -47,6 +47,32 @@ struct DataArray
    }
 };
 
+/* the descriptor's DataArray<Status>: same model plus the TYPE INVARIANT "holds values within the enumeration's value
+ * range [-16,15]" on every element access (isBasic() multiplies the status by rep(): overflow check), as in basis_stubs.h */
+template <class E>
+struct StatusArray
+{
+   E* data; int thesize; int themax;
+   int size() const { return thesize; }
+   E& operator[](int n)
+   {
+      __CPROVER_assert(0 <= n && n < thesize, "DataArray<Status> index in bounds");
+      __CPROVER_assume(-16 <= (int)data[n] && (int)data[n] <= 15);
+      return data[n];
+   }
+   const E& operator[](int n) const
+   {
+      __CPROVER_assert(0 <= n && n < thesize, "DataArray<Status> index in bounds");
+      __CPROVER_assume(-16 <= (int)data[n] && (int)data[n] <= 15);
+      return data[n];
+   }
+   void reSize(int newsize)
+   {
+      __CPROVER_assert(0 <= newsize && newsize <= themax, "DataArray::reSize within the storage provided by the wrapper");
+      thesize = newsize;
+   }
+};
+
 template <class T>
 struct VectorBase
 {
@@ -129,10 +155,10 @@ template <class T> struct SPxBasisBase
    struct Desc
    {
 #include "Desc_Status.inc"
-      DataArray<Status> rowstat;
-      DataArray<Status> colstat;
-      DataArray<Status>* stat;
-      DataArray<Status>* costat;
+      StatusArray<Status> rowstat;      /* DataArray < Status > rowstat, colstat (conformance-checked) */
+      StatusArray<Status> colstat;
+      StatusArray<Status>* stat;
+      StatusArray<Status>* costat;
       int nCols() const
       {
 #include "Desc_nCols.inc"
